@@ -56,9 +56,11 @@ def _jobs(ctx, strength):
     jobs = [{"job": "dispatch", "strength": strength, "numba": ctx.nb, "table": ctx.table},
             {"job": "boundary", "kinds": ["single_layer"], "strength": strength},
             {"job": "boundary", "kinds": ["double_layer"], "strength": strength},
-            {"job": "boundary", "kinds": ["adjoint_double_layer"], "strength": strength},
             {"job": "potential", "kinds": ["single_layer", "double_layer"], "strength": strength}]
     if strength == "thorough":
+        # adjoint double layer (and with it K' = K^T) and the hypersingular operator: thorough tier only -- every
+        # process compiles its own Laplace / modified / Helmholtz assemblers (numba does not cache them)
+        jobs.append({"job": "boundary", "kinds": ["adjoint_double_layer"], "strength": strength})
         jobs.append({"job": "boundary", "kinds": ["hypersingular"], "strength": strength})
     if ctx.nb is None or ctx.table is None:
         ctx.note("translators failed: dispatch correspondence and kernel self-test skipped")
@@ -126,9 +128,13 @@ def _consume_search(ctx, results):
 
 
 def replay(ctx):
+    """Re-run the (seeded, deterministic) implementation jobs that produced the recorded case: the quick set, or the
+    thorough set when the replay was recorded by a thorough search."""
     regen(ctx)
+    ctx.tier = "thorough" if (ctx.replay or {}).get("tier") == "thorough" or "hypersingular" in str(ctx.replay) or \
+        "adjoint" in str(ctx.replay) or "P1" in str(ctx.replay) else "quick"
     correspond(ctx)
-    search(ctx, "thorough")
+    search(ctx, "thorough" if ctx.tier == "thorough" else "quick")
 
 
 META = {
